@@ -77,3 +77,4 @@ def run(chk):
     chk.guard("R3", r3)
     from .c05 import import_lookup_contracts
     chk.guard("R5", lambda: import_lookup_contracts(chk, "R5", ["lit", "pat"], with_chain=False))
+
